@@ -3,7 +3,7 @@ executed under seeded schedules by the TBB stand-in (harness/tbbshim), trace-val
 model (including the permuted support initialisation), + real oneTBB with 1/2/4/16 threads, + (thorough)
 ThreadSanitizer as supporting evidence."""
 from exact import *
-from approx import oracle_c05, oracle_c06
+from approx import oracle_c05, oracle_c06, run_many_dropped
 
 THEOREMS = ["Parmcb.C03." + t for t in ["c03_join_assoc", "c03_join_ident", "c03_join_prefers_left", "c03_reduce_min", "c03_seq_min",
             "c03_reduce_none", "c03_reduce_sum", "c03_update_for", "c03_init_perm", "c03_update_no_conflict",
@@ -73,6 +73,17 @@ def run(tier, replay=None):
                 for t in (1, 2, 4, 16):
                     real_jobs["%s-%s-t%d" % (cid, v, t)] = (base[cid], "exact", [v, t])
             real_jobs["%s-ar" % cid] = (base[cid], "approx", [r.choice(EXACT), 2, r.choice([2, 16])])
+        # explicit OVERSUBSCRIBED arenas: the entry point is called inside tbb::task_arena(64) (16 cores): per-thread state indexed by
+        # current_thread_index(), thread counts taken from the hardware instead of the arena, … — mid-size graphs so that the
+        # parallel ranges are long enough for several threads to work at once; every graph several times
+        for i in range(10 if tier == "quick" else 60):
+            n = r.randint(18, 26)
+            E = [(a, b) for a in range(n) for b in range(a + 1, n) if r.random() < r.uniform(.2, .35)]
+            r.shuffle(E)
+            WE = [(a, b, r.randint(1, 50)) for (a, b) in E]
+            for v in ("fvs_tbb", "iso_tbb", "signed_tbb"):
+                for rep in range(3 if v != "signed_tbb" else 1):
+                    real_jobs["ar%d-%s-%d" % (i, v, rep)] = ((n, WE, 0, "arena-mid"), "exact", [v, 64, "arena=64"])
         text2 = "".join(render_graph(j, k, "d", c[2], a, c[0], c[1]) for j, (c, k, a) in real_jobs.items())
         rc2, out2, err2 = run_harness(breal, text2)
         b2 = parse_blocks(out2)
@@ -80,6 +91,20 @@ def run(tier, replay=None):
             b = b2.get(j, {"lines": []})
             why = (oracle_c01(c, b) or oracle_c02(c, b, mu_of(c))) if k == "exact" else (oracle_c05(c, a[1], b) or oracle_c06(c, a[1], b, mu_of(c)))
             if why: bad.append((j, "real oneTBB: " + why)); jobs[j] = (c, k, a)
+        if rc2 != 0 and not bad:
+            last = [j for j in real_jobs if j in b2][-1:] or list(real_jobs)[:1]
+            nxt = list(real_jobs)[min(len(real_jobs) - 1, list(real_jobs).index(last[0]) + 1)]
+            bad.append((nxt, "real oneTBB: harness crashed (exit status %s) %s" % (rc2, err2[-200:].replace("\n", " ")))); jobs[nxt] = real_jobs[nxt]
+    # (3) more than 1024 / 16384 dropped edges in the TBB builder of the approximate algorithms: under the stand-in (whose
+    # parallel_deterministic_reduce honours the grainsize, as oneTBB's contract says) and under real oneTBB with 16 threads
+    big = {"runs": 0, "cycles": 0}
+    if not replay:
+        for which, bn, extra in (("stand-in", bshim, lambda v: [r.getrandbits(40), 0]), ("real oneTBB", breal, lambda v: [16])):
+            bb, nr, nc = run_many_dropped(bn, r, tier, ["signed_tbb", "fvs_tbb", "iso_tbb"], extra)
+            big["runs"] += nr; big["cycles"] += nc
+            for (j, why, c, a) in bb:
+                jid = "big-%s-%s" % (which, j)
+                bad.append((jid, "%s, many dropped edges: %s" % (which, why))); jobs[jid] = ((c[0], c[1] if len(c[1]) < 4000 else [], c[2], c[3]), "approx", a)
     tsan_note = None
     if tier == "thorough" and not replay:
         bt, lt = compile_harness("h_graph.cpp", out_name="h_graph_tsan", flags=("-fsanitize=thread",), opt="-O1")
@@ -95,7 +120,7 @@ def run(tier, replay=None):
         "exact_tbb_runs_replayed_literally_under_the_logged_schedules_with_equal_cycles": sum(int(w[10]) for w in oks if len(w) > 10 and jobs.get(w[1], (0, "", 0))[1] == "exact"),
         "approx_tbb_runs_whose_exact_phase_was_replayed_literally_under_the_logged_schedules": sum(int(w[9]) for w in oks if len(w) > 9 and jobs.get(w[1], (0, "", 0))[1] == "approx"),
         "schedule_stats": {"runs": len(shim), "parallel_regions": sum(s[0] for s in shim), "leaves": sum(s[1] for s in shim), "forks": sum(s[2] for s in shim), "seqs": sum(s[3] for s in shim)},
-        "real_tbb_runs": len(real_jobs), "tsan": tsan_note,
+        "real_tbb_runs": len(real_jobs), "many_dropped_edges_family": big, "tsan": tsan_note,
         "samples": [{"n": c[0], "edges": c[1], "kind": k, "args": a} for (c, k, a) in list(jobs.values())[-2:]], **stats(base)})
     if bad or viols:
         j, why = bad[0] if bad else (viols[0][1], " ".join(viols[0][2:]))
